@@ -89,26 +89,28 @@ theorem rfr_evalStep (C : Ctx) (e : Expr) : Pres Rfr (evalStep C r e) := by
     · split <;> first | exact NF (neutral_pure _) | exact NF (neutral_fail _)
     · exact NF (neutral_fail _)
   | call k name args =>
-    unfold evalStep
-    apply pres_bind Rfr_po (rfr_evalArgs he args); intro kw
     cases k with
     | function =>
-      simp only
+      simp only [evalStep]
+      apply pres_bind Rfr_po (rfr_evalArgs he args); intro kw
       split
       · exact rfr_invoke _ _ _ _ _
       · exact NF (neutral_fail _)
     | implicit ns =>
-      simp only
+      simp only [evalStep]
+      apply pres_bind Rfr_po (rfr_evalArgs he args); intro kw
       split
       · split <;> exact rfr_invoke _ _ _ _ _
       · exact NF (neutral_fail _)
     | classOp ns =>
-      simp only
+      simp only [evalStep]
       split
-      · split <;> exact rfr_invoke _ _ _ _ _
+      · apply pres_bind Rfr_po (rfr_evalArgs he args); intro kw
+        exact rfr_invoke _ _ _ _ _
       · exact NF (neutral_fail _)
     | bridge ns =>
-      simp only
+      simp only [evalStep]
+      apply pres_bind Rfr_po (rfr_evalArgs he args); intro kw
       split
       · split <;> exact rfr_invoke _ _ _ _ _
       · exact NF (neutral_fail _)
